@@ -62,6 +62,12 @@ Theorem graphql_full_ascii : forall s, Forall (fun c => width (cp c) = 1) s -> e
 Proof. exact graphql_full_ascii_l. Qed.
 Print Assumptions graphql_full_ascii.
 
+(** the lexer with the proposed repair of [peek_next] (lookahead on a clone of the character iterator,
+    proposed-fixes/C12-graphql-lexer-utf8.diff) is total on every text *)
+Theorem graphql_repaired_lexer_total : forall s, exists ts, lex_graphql_repaired s = Done ts.
+Proof. exact (iter_lexer_safe graphql_next_repaired eq_refl). Qed.
+Print Assumptions graphql_repaired_lexer_total.
+
 (** * 2. lexer termination: fuel = number of characters + 1 suffices for every lexer, every text *)
 Theorem lex_terminates : forall s,
   lex_gql s <> NoFuel /\ lex_cypher s <> NoFuel /\ lex_sparql s <> NoFuel /\
